@@ -1055,6 +1055,15 @@ func sanitizePanic(msg string) string {
 // replayVars re-runs a stored C14 case (correspondence and specification verdicts) on the current tree
 func replayVars(c *Ctx, rep map[string]any) {
 	str := func(k string) string { s, _ := rep[k].(string); return s }
+	if str("op") == "varsalias" {
+		for _, l := range strings.Split(c.Worker.One("varsalias "+impl.HexW([]byte(str("schema")))), "\t") {
+			fmt.Println("  ", l)
+			if strings.Contains(l, "fresh=ERR") && !strings.Contains(l, "shared=ERR") {
+				c.Report("spec", "vars-conforms:shared-map-object-not-judged-per-position", "VariableValues with ONE map object supplied at two positions of different input types: "+l, rep)
+			}
+		}
+		return
+	}
 	cs := varsCase{schema: str("schema"), doc: str("document"), vals: []string{str("vars")}}
 	if f, ok := rep["op_index"].(float64); ok {
 		cs.opIndex = int(f)
